@@ -84,6 +84,7 @@ def run(ctx, L):
                 L.ok('F12.progress', key, f.site(w), '%s: %s' % (kind, detail))
     L.floor('F12.progress', n, 11)
     recursion(ctx, L, cg, funcs, establishers)
+    lexer_regexes(ctx, L)
 
 
 def acyclicity_establishers(ctx, L):
@@ -236,3 +237,80 @@ def recursion(ctx, L, cg, funcs, establishers):
     L.check('if abspath in self.files: if self.files[abspath] is None: raise CyclicIncludeError(path) return self.files[abspath] '
             'self.files[abspath] = None' in s, 'F12.establisher', 'include cycle marker', fp.site(),
             'the cycle marker must be stored before processing and tested (is None) before use', s[:300])
+
+
+def lexer_regexes(ctx, L):
+    """Token regexes of the two ply lexers: no quantified group one of whose alternatives is itself nothing but a
+    quantified atom (`(X+|...)*`, `(a+)+`, `(.*)*`): a backtracking engine explores exponentially many splits of a run
+    of X when the overall match fails (e.g. an unterminated comment), so lexing time is not bounded by the input size."""
+    import re._parser as sre
+    n = 0
+    for modname, cls in (('prophyc.parsers.prophy', 'Parser'), ('prophyc.calc', 'Calc')):
+        m = ctx.py.mod(modname)
+        pats = []
+        for f in m.all_funcs():
+            if re.match(r'^%s\.t_(?!error)\w+$' % cls, f.qualname):
+                doc = ast.get_docstring(f.node, clean=False)
+                if doc:
+                    pats.append((f.qualname, doc.strip(), f.site()))
+        for st in m.cls(cls).body:
+            if isinstance(st, ast.Assign) and unparse(st.targets[0]).startswith('t_') and isinstance(st.value, ast.Constant) \
+                    and isinstance(st.value.value, str) and unparse(st.targets[0]) != 't_ignore':
+                pats.append((cls + '.' + unparse(st.targets[0]), st.value.value, '%s:%d' % (m.rel, st.lineno)))
+        for name, pat, site in pats:
+            n += 1
+            try:
+                tree = sre.parse(pat)
+            except Exception as e:
+                L.bad('F12.lexer-regex', name, site, 'token regex does not parse: %s' % e, pat)
+                continue
+            bad = nested_bare_repeat(tree)
+            L.check(not bad, 'F12.lexer-regex', name, site,
+                    'token regex `%s` repeats a group that contains an alternative consisting only of a repeated atom (%s): '
+                    'catastrophic backtracking on input where the token cannot be completed (e.g. an unterminated comment) - '
+                    'lexing time grows exponentially with the input' % (pat, bad), pat)
+    L.floor('F12.lexer-regex', n, 20)
+
+
+def nested_bare_repeat(tree):
+    import re._constants as C
+
+    def unbounded(node):
+        op, av = node
+        return op in (C.MAX_REPEAT, C.MIN_REPEAT) and av[1] == C.MAXREPEAT
+
+    def alternatives(sub):
+        """The alternatives of a repeated body: each a list of nodes."""
+        items = list(sub)
+        if len(items) == 1 and items[0][0] is C.SUBPATTERN:
+            return alternatives(items[0][1][3])
+        if len(items) == 1 and items[0][0] is C.BRANCH:
+            out = []
+            for alt in items[0][1][1]:
+                out.extend(alternatives(alt))
+            return out
+        return [items]
+
+    def walk(sub):
+        for node in sub:
+            op, av = node
+            if op in (C.MAX_REPEAT, C.MIN_REPEAT):
+                body = av[2]
+                if av[1] == C.MAXREPEAT:
+                    for alt in alternatives(body):
+                        if len(alt) == 1 and unbounded(alt[0]):
+                            return 'alternative is a bare repeat'
+                r = walk(body)
+                if r:
+                    return r
+            elif op is C.SUBPATTERN:
+                r = walk(av[3])
+                if r:
+                    return r
+            elif op is C.BRANCH:
+                for alt in av[1]:
+                    r = walk(alt)
+                    if r:
+                        return r
+        return None
+    return walk(tree)
